@@ -31,6 +31,7 @@ from hypothesis import strategies as st
 
 from vlib.core import Result, Unit
 from vlib import harness
+from vlib import wallsess
 
 ID = 'C29'
 LEVEL = 'exploration'
@@ -313,10 +314,17 @@ def _msg(name, typ, word):
 def check_case(case):
     res = Result()
     sb = harness.Sandbox()
+    wallsess.reset()
     try:
         _check(case, res, sb)
     finally:
         sb.close()
+    if wallsess.hit():
+        # the runner's per-case wall limit cut a statement short somewhere: nothing observed
+        # afterwards can be trusted
+        res = Result()
+        res.inconclusive = True
+        res.label('case-wall-limit')
     return res
 
 
@@ -350,7 +358,7 @@ def _check(case, res, sb):
     res.nt(len(files) >= 2 and near)
     res.label('fmt:' + fmt, 'nfiles:%d' % len(files))
     # ---------------- writer session
-    s = harness.Sess(sandbox=sb, budget=60000, video='cga',
+    s = wallsess.WallSess(sandbox=sb, budget=60000, video='cga',
                      devices={'Z': sb.z, 'CAS1': spec},
                      hide_protected=True)
     try:
@@ -443,7 +451,7 @@ def _check(case, res, sb):
             f['ondisk'] = None
     # ---------------- reader session
     reads = case.get('reads') or [{'i': i} for i in range(len(files))]
-    s = harness.Sess(sandbox=sb, budget=60000, video='cga',
+    s = wallsess.WallSess(sandbox=sb, budget=60000, video='cga',
                      devices={'Z': sb.z, 'CAS1': spec},
                      hide_protected=True)
     reopen = bool(case.get('reopen', False))
@@ -462,7 +470,7 @@ def _check(case, res, sb):
                 if c is not None:
                     res.fail('escaped.%s@%s' % (c.exc, c.frame), desc + ' closing a reader')
                     return
-                s = harness.Sess(sandbox=sb, budget=60000, video='cga',
+                s = wallsess.WallSess(sandbox=sb, budget=60000, video='cga',
                                  devices={'Z': sb.z, 'CAS1': spec}, hide_protected=True)
                 pos = 0
             if pos >= len(files):
@@ -1019,6 +1027,9 @@ KILLS = [
     "cassette.py write_trailer: no trailer -> image.undecodable, read.* (CAS); survives on WAV "
     "(the pause between records makes the trailer redundant there)",
     "cassette.py WAVBitStream: 1-bit half pulse 500 -> 330 us -> read.not-found (WAV unit)",
+    "wave-5 seed: CassetteStream.read returns short at the end of the buffered record -> "
+    "read.data-error (Input past end on an INPUT$ request that straddles two records; chunks "
+    "unit, random read plans, regression)",
     "wave-4 seed: _close_record_buffer writes no (empty) data record for a zero-length BSAVE "
     "image -> image.undecodable, read.messages, read.not-found (positions unit / regression)",
     "cassette.py _search: is_open not reset at end of tape (revert of ab228b4a) -> "
